@@ -179,7 +179,7 @@ pub fn check_case(env: &Env, ctx: &Ctx, case: &Case) -> (Vec<Violation>, LagStat
 pub fn memory_check(env: &Env, ctx: &Ctx, args: &[String], n: usize, seed: u64, pager: bool) -> (Option<Violation>, serde_json::Value) {
     let build = |reps: usize| -> Vec<GLine> {
         let mut rng = Rng::new(mix(seed, &[tag("C11"), tag("e1mem")]));
-        let gp = gen::GenParams { flavor: gen::Flavor::Git, sections: vec![], max_hunks: 1, pivot: 3, max_run: 8, with_commit_preamble: false, multibyte: false, no_newline_marker: false, similar_pairs: true, no_index_lines: false, no_prefix: false, line_number_class: 0, long_line_pct: 0 };
+        let gp = gen::GenParams { flavor: gen::Flavor::Git, sections: vec![], max_hunks: 1, pivot: 3, max_run: 8, with_commit_preamble: false, multibyte: false, no_newline_marker: false, similar_pairs: true, no_index_lines: false, no_prefix: false, line_number_class: 0, long_line_pct: 0, path_style: 0 };
         let mut lines: Vec<GLine> = Vec::new();
         let mut tok = 0usize;
         // a fixed repertoire of 100 hunks, repeated: every cache keyed on content (lazily compiled
